@@ -127,7 +127,7 @@ def explore_pair(args):
   before = None
   for order in ((0, 1), (1, 0)):
     r = sched.serial(backend, prefix, reqs, order)
-    rr = svcreal.RealRunner(backend)
+    rr = svcreal.make_runner(backend)
     for p in prefix:
       rr.step(p)
     before = rr.snapshot()
@@ -197,6 +197,17 @@ def run(c):
     fine_pairs += [(a, b) for (p, a, b) in tasks if p == 'A' and (a, b) not in fine_pairs and
                    REQS[a][0] != REQS[b][0]][:60]
   jobs += [('sqlmem', 'A', a, b, limit, True) for a, b in fine_pairs]
+  # HOSTED: the real PythiaServicer and the real PartiallySerializableDesignerPolicy (config check, trial
+  # loader, state dump through UpdateMetadata) between SuggestTrials and a scripted designer: the policy's
+  # own datastore traffic (GetStudy, ListTrials, UpdateMetadata via the policy supporter) is interleaved too
+  hosted_pairs = [('suggestNew', 'mdStudy'), ('suggestNew', 'mdBoth'), ('suggestNew', 'complete1'), ('suggestNew', 'suggestNew2'),
+                  ('suggestOwn', 'mdBoth'), ('suggestNew', 'createTrial2'), ('suggestNew', 'setInactive'), ('suggestNew', 'delete1'),
+                  ('suggestNew', 'mdMissing'), ('suggestPool', 'complete2')]
+  if c.tier == 'thorough':
+    hosted_pairs += [(a, b) for a in ('suggestNew', 'suggestOwn', 'suggestPool', 'suggestMd') for b in REQS if (a, b) not in hosted_pairs and b not in ('earlyStop1',)]
+  jobs += [('hosted:ram', 'A', a, b, limit) for a, b in hosted_pairs]
+  if c.tier == 'thorough':
+    jobs += [('hosted:sqlmem', 'A', a, b, limit) for a, b in hosted_pairs[:10]]
   ctx = multiprocessing.get_context('fork')
   results = []
   with concurrent.futures.ProcessPoolExecutor(max_workers=min(14, os.cpu_count() or 4), mp_context=ctx) as ex:
@@ -207,7 +218,7 @@ def run(c):
     total += r['schedules']
     ka, kb = REQS[r['a']][0], REQS[r['b']][0]
     c.count(r['schedules'], ('pair', r['backend'], r['prefix'], r['a'], r['b'], r.get('fine', False)) if r['schedules'] > 2 else None,
-            kind=('fine-pair:%s|%s' if r.get('fine') else 'pair:%s|%s') % tuple(sorted((ka, kb))))
+            kind=('fine-pair:%s|%s' if r.get('fine') else 'hosted-pair:%s|%s' if r['backend'].startswith('hosted:') else 'pair:%s|%s') % tuple(sorted((ka, kb))))
     c.traces += r['schedules']
     for b in r['bad']:
       key = 'not-serialisable:%s|%s:%s' % (tuple(sorted((ka, kb))) + (b['what'],))
